@@ -3,6 +3,7 @@ import Refine.Lemmas.ScalarReal
 import Refine.Lemmas.GeomReal
 import Refine.Lemmas.QualityReal
 import Refine.Lemmas.QualityDeriv
+import Refine.Lemmas.QualityExample
 import Refine.Props.C15
 import Mathlib.Tactic.Ring
 import Mathlib.Tactic.Linarith
@@ -14,7 +15,8 @@ import Mathlib.Tactic.SplitIfs
 -/
 namespace Refine.Props.C15Quality
 open Refine Refine.Model.Geom Refine.Model.Quality Refine.ScalarReal Refine.GeomReal Refine.QualityReal
-open Refine.QualityDeriv Refine.Props.C15
+open Refine.QualityDeriv Refine.Props.C15 Refine.QualityExample
+open Filter Topology
 
 /-! ### value consistency: the quality returned together with the derivative IS the plain quality
     (the C keeps two copies of each formula; the tie binds each copy to its model, these theorems bind the models) -/
@@ -146,6 +148,78 @@ theorem tetJacDquality_hasDerivAt (minVol : ℝ) (n0 n1 n2 n3 : QNode ℝ) (mx :
   simp only [vdot, tetJacDL2, negThird_eq, sub_eq, mul_eq, neg_eq, div_eq]
   field_simp
   ring
+
+/-- … and therefore of the MODEL FUNCTION `tetJacQuality` itself (the transcription of `ref_node_tet_jac_quality`
+    that the tie compares with the C): the branch conditions are open, so near `t = 0` the plain quality follows the
+    smooth formula, and `t ↦ quality(node 0 at x0 + t δ)` has derivative `d · δ` at `0`, where `d` is what
+    `ref_node_tet_jac_dquality_dnode0` returns.  This is the statement "the analytic derivative used by the smoother
+    agrees with finite differences" in the limit. -/
+theorem tetJacQuality_hasDerivAt (minVol : ℝ) (n0 n1 n2 n3 : QNode ℝ) (mx : Model.Matrix.M6 ℝ)
+    (j : Model.Matrix.M33 ℝ) (q : ℝ) (d δ : V3 ℝ)
+    (hexp : Model.Matrix.expM (toMx (avg4 n0.l n1.l n2.l n3.l)) = .ok mx)
+    (hjac : Model.Matrix.jacobM mx = .ok j)
+    (hvol : minVol < tetVol n0.x n1.x n2.x n3.x)
+    (hdiv : Scalar.divisible ((Real.sqrt (Model.Matrix.detM mx) * tetVol n0.x n1.x n2.x n3.x) ^ ((2 : ℝ) / 3))
+              (tetJacL2 (ofMx mx) n0.x n1.x n2.x n3.x) = true)
+    (hvim : Real.sqrt (Model.Matrix.detM mx) * tetVol n0.x n1.x n2.x n3.x ≠ 0)
+    (h : tetJacDquality minVol n0 n1 n2 n3 = .ok (q, d)) :
+    HasDerivAt (fun t => qval (tetJacQuality minVol (n0.moved δ t) n1 n2 n3)) (vdot d δ) 0 := by
+  have hsm := tetJacDquality_hasDerivAt minVol n0 n1 n2 n3 mx j q d δ hexp hjac hvol hdiv hvim h
+  refine hsm.congr_of_eventuallyEq ?_
+  have hV := (tetVol_line n0.x n1.x n2.x n3.x δ).continuousAt
+  have hL := (tetJacL2_line (ofMx mx) n0.x n1.x n2.x n3.x δ).continuousAt
+  have hV0 : tetVol (line n0.x δ 0) n1.x n2.x n3.x = tetVol n0.x n1.x n2.x n3.x := by rw [line_zero]
+  have hL0 : tetJacL2 (ofMx mx) (line n0.x δ 0) n1.x n2.x n3.x = tetJacL2 (ofMx mx) n0.x n1.x n2.x n3.x := by
+    rw [line_zero]
+  have e1 : ∀ᶠ t in 𝓝 (0 : ℝ), minVol < tetVol (line n0.x δ t) n1.x n2.x n3.x :=
+    continuousAt_const.eventually_lt hV (by rw [hV0]; exact hvol)
+  have hnum : ContinuousAt (fun t => |(Real.sqrt (Model.Matrix.detM mx) * tetVol (line n0.x δ t) n1.x n2.x n3.x) ^
+      ((2 : ℝ) / 3)|) 0 :=
+    ((continuousAt_const.mul hV).rpow_const (Or.inr (by norm_num))).abs
+  have hden : ContinuousAt (fun t => (10 : ℝ) ^ (20 : ℤ) * |tetJacL2 (ofMx mx) (line n0.x δ t) n1.x n2.x n3.x|) 0 :=
+    continuousAt_const.mul hL.abs
+  have e2 : ∀ᶠ t in 𝓝 (0 : ℝ),
+      |(Real.sqrt (Model.Matrix.detM mx) * tetVol (line n0.x δ t) n1.x n2.x n3.x) ^ ((2 : ℝ) / 3)| <
+        (10 : ℝ) ^ (20 : ℤ) * |tetJacL2 (ofMx mx) (line n0.x δ t) n1.x n2.x n3.x| := by
+    refine hnum.eventually_lt hden ?_
+    simp only [hV0, hL0]
+    exact (divisible_iff' _ _).mp hdiv
+  filter_upwards [e1, e2] with t ht1 ht2
+  have := tetJacQuality_smooth minVol (n0.moved δ t) n1 n2 n3 mx j hexp hjac ht1 ((divisible_iff' _ _).mpr ht2)
+  rw [this]
+  rfl
+
+/-- non-vacuity of `tetJacQuality_smooth` / `tetJacDquality_hasDerivAt`: a tet with four different vertex
+    metrics (and four different stored log-metrics) on which the smooth branch is taken -/
+example : ∃ q d, tetJacDquality (0 : ℝ) ex0 ex1 ex2 ex3 = .ok (q, d) ∧
+    ∀ δ, HasDerivAt (fun t => qval (tetJacQuality 0 (ex0.moved δ t) ex1 ex2 ex3)) (vdot d δ) 0 := by
+  obtain ⟨j, hj⟩ := ex_jac
+  have hvim : Real.sqrt (Model.Matrix.detM (⟨1, 0, 0, 1, 0, 1⟩ : Model.Matrix.M6 ℝ)) *
+      tetVol ex0.x ex1.x ex2.x ex3.x ≠ 0 := by
+    rw [ex_det, ex_vol]; simp
+  have hvol : (0 : ℝ) < tetVol ex0.x ex1.x ex2.x ex3.x := by rw [ex_vol]; norm_num
+  have hdiv : Scalar.divisible ((Real.sqrt (Model.Matrix.detM (⟨1, 0, 0, 1, 0, 1⟩ : Model.Matrix.M6 ℝ)) *
+      tetVol ex0.x ex1.x ex2.x ex3.x) ^ ((2 : ℝ) / 3))
+      (tetJacL2 (ofMx (⟨1, 0, 0, 1, 0, 1⟩ : Model.Matrix.M6 ℝ)) ex0.x ex1.x ex2.x ex3.x) = true := by
+    rw [ex_det, ex_vol, ex_l2, divisible_iff']
+    have h1 : ((Real.sqrt 1 * (1 / 6 : ℝ)) ^ ((2 : ℝ) / 3)) ≤ 1 := by
+      rw [Real.sqrt_one, one_mul]
+      exact Real.rpow_le_one (by norm_num) (by norm_num) (by norm_num)
+    have h0 : 0 ≤ ((Real.sqrt 1 * (1 / 6 : ℝ)) ^ ((2 : ℝ) / 3)) := by positivity
+    rw [abs_of_nonneg h0]
+    have : (1 : ℝ) < (10 : ℝ) ^ (20 : ℤ) * |(9 : ℝ)| := by
+      rw [abs_of_pos (by norm_num : (0 : ℝ) < 9)]
+      have : (1 : ℝ) ≤ (10 : ℝ) ^ (20 : ℤ) := one_le_zpow₀ (by norm_num) (by norm_num)
+      linarith
+    linarith
+  have hval := tet_jac_dquality_value (0 : ℝ) ex0 ex1 ex2 ex3
+  rw [tetJacQuality_smooth 0 ex0 ex1 ex2 ex3 _ j ex_exp hj hvol hdiv] at hval
+  cases hq : tetJacDquality (0 : ℝ) ex0 ex1 ex2 ex3 with
+  | error e => rw [hq] at hval; simp [Except.map] at hval
+  | ok qd =>
+    obtain ⟨q, d⟩ := qd
+    exact ⟨q, d, rfl, fun δ =>
+      tetJacQuality_hasDerivAt 0 ex0 ex1 ex2 ex3 _ j q d δ ex_exp hj hvol hdiv hvim hq⟩
 
 /-! ### symmetry: even permutations of the vertices (the smoother passes the smoothed node first) -/
 
